@@ -109,12 +109,19 @@ def config_for(ci, labels, nconf, menu=None):
 
 
 # ------------------------------------------------------------------ running
-def run_engine(labels, opts, order=None):
-    """Fresh nodes, fresh engine, one compute.  Returns (force, nodes)."""
+def run_engine(labels, opts, order=None, late_width=False):
+    """Fresh nodes, fresh engine, one compute.  Returns (force, nodes).
+    late_width: create the node with a placeholder width and assign the real one afterwards - Node.width is a public
+    attribute and Timeline.get_nodes() sets it exactly like that (after adding the label padding)."""
     from labella.force import Force
     from labella.node import Node
     seq = labels if order is None else [labels[i] for i in order]
-    nodes = [Node(p, w, ("d", i)) for i, (p, w) in enumerate(seq)]
+    if late_width:
+        nodes = [Node(p, 50, ("d", i)) for i, (p, w) in enumerate(seq)]
+        for n, (p, w) in zip(nodes, seq):
+            n.width = w
+    else:
+        nodes = [Node(p, w, ("d", i)) for i, (p, w) in enumerate(seq)]
     f = Force(dict(opts))
     f.nodes(nodes)
     f.compute()
@@ -345,11 +352,11 @@ def soft_wall_distance(items, lo, hi):
 
 
 # ------------------------------------------------------------------ exploring
-def evaluate(prop, labels, opts, info):
+def evaluate(prop, labels, opts, info, late_width=False):
     """Run one case and apply the oracle of `prop`.  -> (key, reason) | None"""
     try:
         with horizon(300.0):
-            force, nodes = run_engine(labels, opts)
+            force, nodes = run_engine(labels, opts, late_width=late_width)
     except Hang as e:
         return ("HANG", str(e))
     except RecursionError as e:
@@ -511,14 +518,18 @@ def run_layout_shard(prop, shard):
             for ci in range(nconf + len(DEPENDENT)):
                 opts = config_for(ci, labels, nconf, menu)
                 info = _Info(acc)
-                bad = evaluate(prop, labels, opts, info)
+                late = (idx + ci) % 4 == 3  # every 4th case builds its nodes the way Timeline does
+                bad = evaluate(prop, labels, opts, info, late)
                 acc.evals += 1
                 acc.trans += 1
                 any_nt |= info.nontrivial
+                if late:
+                    acc.counters["late_width_cases"] += 1
                 if info.nontrivial:
                     acc.nontriv += 1
                 if bad:
-                    acc.violation({"labels": labels, "opts": opts}, bad[0], bad[1], order=(PART_ORDER[p["alpha"]], len(labels), idx, ci))
+                    acc.violation({"labels": labels, "opts": opts, "late_width": late}, bad[0], bad[1],
+                                  order=(PART_ORDER[p["alpha"]], len(labels), idx, ci))
             if idx % 997 == shard["rem"]:
                 acc.sample({"labels": labels, "opts": opts})
         return acc
@@ -560,7 +571,7 @@ class _Info(dict):
 def replay_layout(prop, case):
     labels = [tuple(x) for x in case["labels"]]
     acc = Acc()
-    return evaluate(prop, labels, case["opts"], _Info(acc))
+    return evaluate(prop, labels, case["opts"], _Info(acc), bool(case.get("late_width")))
 
 
 def snippet_layout(case):
